@@ -59,7 +59,9 @@ var c02Collision = map[string]string{
 	"escaped-line-break-tie-with": "on: push\njobs:\n  t:\n    runs-on: ubuntu-latest\n    steps:\n      - uses: actions/checkout@v4\n        with:\n          ref: \"${{\\nfoo }}\"\n          key: ${{ bar }}\n",
 	// the same text as a ref filter and as a path filter, valid as one and not as the other
 	"filter-text-shared-by-refs-and-paths": "on:\n  push:\n    branches: ['docs/', '/src', 'a b', 'ok']\n    paths: ['docs/', '/src', 'a b', 'ok']\n  pull_request:\n    paths-ignore: ['docs/', 'x~y']\n    tags-ignore: ['x~y', 'docs/']\njobs:\n  a:\n    runs-on: ubuntu-latest\n    steps:\n      - run: echo\n",
-	"workflow-call-self":                   "on:\n  workflow_call:\n    inputs:\n      a:\n        type: string\n      b:\n        type: number\n        required: true\n    secrets:\n      s:\n        required: true\n    outputs:\n      o1:\n        value: ${{ jobs.a.outputs.nope }}\n      o2:\n        value: ${{ jobs.nope.outputs.x }}\njobs:\n  a:\n    runs-on: ubuntu-latest\n    outputs:\n      x: y\n    steps:\n      - run: echo ${{ inputs.zzz }} ${{ secrets.qqq }}\n",
+	// inputs of workflow_dispatch (kept in a Go map) whose values refer to each other
+	"dispatch-inputs-referring-to-each-other": "on:\n  workflow_dispatch:\n    inputs:\n      environment:\n        type: string\n        default: ${{ inputs.region }}-${{ inputs.tier }}\n      region:\n        type: string\n        description: ${{ inputs.environment }} ${{ github.event.inputs.tier }}\n      tier:\n        type: choice\n        options: ['${{ inputs.region }}', b]\n        default: ${{ inputs.environment }}\njobs:\n  a:\n    runs-on: ubuntu-latest\n    steps:\n      - run: echo ${{ inputs.region }}\n",
+	"workflow-call-self":                      "on:\n  workflow_call:\n    inputs:\n      a:\n        type: string\n      b:\n        type: number\n        required: true\n    secrets:\n      s:\n        required: true\n    outputs:\n      o1:\n        value: ${{ jobs.a.outputs.nope }}\n      o2:\n        value: ${{ jobs.nope.outputs.x }}\njobs:\n  a:\n    runs-on: ubuntu-latest\n    outputs:\n      x: y\n    steps:\n      - run: echo ${{ inputs.zzz }} ${{ secrets.qqq }}\n",
 }
 
 // project-based collision inputs (paths relative to the tree root of C10's layout)
